@@ -9,40 +9,10 @@
 import Minicbor.Lemmas.SkipExact
 import Minicbor.Lemmas.SkipView
 import Minicbor.Lemmas.SkipLocal
+import Minicbor.Parse
 
 namespace Minicbor
 open Dec
-
-/-! ### which trees the no-alloc build supports -/
-
-mutual
-/-- an indefinite-length array or map occurs somewhere in the tree. -/
-def WItem.hasIndef : WItem → Bool
-  | .arrayI _ => true
-  | .mapI _ => true
-  | .array _ xs => hasIndefs xs
-  | .map _ xs => hasIndefs xs
-  | .tag _ _ x => x.hasIndef
-  | _ => false
-def hasIndefs : List WItem → Bool
-  | [] => false
-  | x :: xs => x.hasIndef || hasIndefs xs
-end
-
-mutual
-/-- an indefinite-length array or map occurs somewhere inside a definite-length array or map
-    (at any depth, also through tags and further containers; indefinite strings do not count). -/
-def WItem.indefInDef : WItem → Bool
-  | .array _ xs => hasIndefs xs
-  | .map _ xs => hasIndefs xs
-  | .arrayI xs => indefInDefs xs
-  | .mapI xs => indefInDefs xs
-  | .tag _ _ x => x.indefInDef
-  | _ => false
-def indefInDefs : List WItem → Bool
-  | [] => false
-  | x :: xs => x.indefInDef || indefInDefs xs
-end
 
 /-! ### lockstep with the alloc build on arbitrary bytes -/
 
